@@ -39,6 +39,7 @@ Definition xerr_code (e : EncXml.xerr) : N :=
 
 Definition MODEL_FUEL : N := 9999.
 Definition INTERNAL : N := 13.
+Definition NOT_ENOUGH_MEMORY : N := 15.
 
 Definition gen_of (g : N) : EncXml.gen_type :=
   if g =? 0 then EncXml.Compact else if g =? 2 then EncXml.Canonical else EncXml.Indent.
@@ -51,6 +52,7 @@ Definition w2x_tree_from_doc (o : w2x_opts) (doc : list N) : wtree + N :=
   | BOk t => inl t
   | BErr (BE_PARSE e) => inr (perr_code e)
   | BErr BE_INTERNAL => inr INTERNAL
+  | BErr BE_NOT_ENOUGH_MEMORY => inr NOT_ENOUGH_MEMORY
   | BFuel => inr MODEL_FUEL
   end.
 
